@@ -97,6 +97,14 @@ where
     ) -> Self {
         let (r_snd, r_rcv) = crossbeam_channel::bounded(READ_LOG_SIZE);
         let (w_snd, w_rcv) = crossbeam_channel::bounded(WRITE_LOG_SIZE);
+        #[cfg(mini_moka_verif)]
+        let ((r_snd, r_rcv), (w_snd, w_rcv)) = match crate::verif::scaled_queues() {
+            Some((_, r, w)) => (
+                crossbeam_channel::bounded(r),
+                crossbeam_channel::bounded(w),
+            ),
+            None => ((r_snd, r_rcv), (w_snd, w_rcv)),
+        };
 
         let inner = Inner::new(
             max_capacity,
@@ -690,6 +698,10 @@ where
             calls += 1;
             should_sync = self.read_op_ch.len() >= READ_LOG_FLUSH_POINT
                 || self.write_op_ch.len() >= WRITE_LOG_FLUSH_POINT;
+            #[cfg(mini_moka_verif)]
+            if let Some((flush, _, _)) = crate::verif::scaled_queues() {
+                should_sync = self.read_op_ch.len() >= flush || self.write_op_ch.len() >= flush;
+            }
         }
 
         if self.has_expiry() || self.has_valid_after() {
